@@ -5,6 +5,7 @@ import Tpp.Model.Ctors
 import Tpp.Model.Printers
 import Tpp.Driver.Values
 import Tpp.Ref.Render
+import Tpp.Driver.TermOracle
 /-!
 Driver slice `Strings` (C17).
   `Z <hex>`                      string(ptr, len)          → `<to_string hex> <size>`
@@ -64,6 +65,8 @@ def rdSeqOp : Rd (Option (SeqOp Element)) := do
   | "sw" => do let r ← R; let q ← R; return some (.swap r q)
   | "ix" => do let r ← R; let i ← Rd.num; let e ← rdElement; return some (.setAt r i e)
   | "ob" => do let r ← R; return some (.obs r)
+  -- `tw r`: the register streamed to a fresh terminal (an observation of the WIRE): encoded as an observation of register r + 4
+  | "tw" => do let r ← R; return some (.obs (r + 4))
   -- `cq r q`: the comparison operators and hashes of two registers (an observation)
   | "cq" => do let r ← R; let q ← R; return some (.obs2 r q)
   -- `bi r i <elem>` / `ri r i <elem>`: assignment through `*(begin()+i)` / `*(rbegin()+i)`
@@ -78,11 +81,13 @@ def showReg (es : List Element) : String :=
   s!"{es.length} {hex (TString.toString es)}" ++ String.join (es.map fun e => " ; " ++ showElement e)
 
 /-- the observations made in mid-program (`ob r` = `to_string(r)` at that point), in program order -/
-def observations {α} (text : List α → List Byte) (cmp : List α → List α → String) : Regs α → List (SeqOp α) → List String
+def observations {α} (text : List α → List Byte) (cmp : List α → List α → String) (wire : List α → String := fun _ => "W?") :
+    Regs α → List (SeqOp α) → List String
   | _, [] => []
-  | g, .obs r :: ops => hex (text (g r)) :: observations text cmp g ops
-  | g, .obs2 r q :: ops => cmp (g r) (g q) :: observations text cmp g ops
-  | g, op :: ops => observations text cmp (op.apply g) ops
+  | g, .obs r :: ops =>
+    (if r < 4 then hex (text (g r)) else "W" ++ wire (g (r - 4))) :: observations text cmp wire g ops
+  | g, .obs2 r q :: ops => cmp (g r) (g q) :: observations text cmp wire g ops
+  | g, op :: ops => observations text cmp wire (op.apply g) ops
 
 /-- `== != < > <=> hash`: what the executor prints for two strings (hash: `1` when the hashes are equal, printed only
     when the strings compare equal, `-` otherwise) -/
@@ -92,11 +97,18 @@ def cmpBlock (a b : List Element) : String :=
   let bit (x : Bool) : String := if x then "1" else "0"
   s!"{bit e}{bit (!e)}{bit (TString.lt a b)}{bit (TString.lt b a)}:{c}:{if e then "1" else "-"}"
 
+/-- `fresh terminal << string`: the wire bytes and the state record, as one word -/
+def wireOf (es : List Element) : String :=
+  let (s', out) := step {} {} (.writeString es)
+  s!"{hex out}/{(showState s').replace " " "_"}"
+
 def runProgram (rest : String) : String :=
   let ops := parseProgram rest
   let g := SeqOp.run (fun _ => []) ops
+  let all := observations TString.toString cmpBlock wireOf (fun _ => []) ops
   " | ".intercalate ((List.range 4).map fun k => showReg (g k)) ++ " # k=1 # " ++
-    " ".intercalate ("obs" :: observations TString.toString cmpBlock (fun _ => []) ops)
+    " ".intercalate ("obs" :: all.filter (fun o => !o.startsWith "W")) ++ " # " ++
+    " ".intercalate ("wire" :: (all.filter (·.startsWith "W")).map fun o => (o.drop 1).toString)
 
 def run (kind : Char) (rest : String) : Option String :=
   match kind with
@@ -242,10 +254,18 @@ def oracle (kind : Char) (_cfg rest real : String) : Option String :=
       let same := decide (a = b)
       let bit (x : Bool) : String := if x then "1" else "0"
       s!"{bit same}{bit (!same)}"
-    let expObs := "obs" :: observations (fun (ts : List (List Byte)) => ts.flatten) (fun _ _ => "?") (fun _ => []) (ops.map (SeqOp.map fun e => e.glyph.text))
-    let expCmp := observations (fun _ => []) canonBlock (fun _ => []) (ops.map (SeqOp.map Tpp.Driver.Values.canonElement))
+    let expObs := "obs" :: (observations (fun (ts : List (List Byte)) => ts.flatten) (fun _ _ => "?") (fun _ => "") (fun _ => []) (ops.map (SeqOp.map fun e => e.glyph.text))).filter (fun o => !o.startsWith "W")
+    let expCmp := (observations (fun _ => []) canonBlock (fun _ => "") (fun _ => []) (ops.map (SeqOp.map Tpp.Driver.Values.canonElement))).filter (fun o => !o.startsWith "W")
+    -- the strings streamed to a terminal in mid-program: each wire is judged as the terminal script `ws <elements>` it is
+    let wired := (observations (fun _ => []) (fun _ _ => "?") (fun (es : List Element) => s!" 0 ; ws {es.length} {" ".intercalate (es.map showElement)}") (fun _ => []) ops).filter (·.startsWith "W")
     match real.splitOn " # " with
-    | [body, k, obs] =>
+    | [body, k, obs, wires] =>
+      let gotW := (words wires).drop 1
+      let wfail := (wired.zip gotW).findSome? fun (sc, w) =>
+        let v := oracleTerminal "0 1 0 0 40 3" (sc.drop 1).toString (w.replace "/" " / " |>.replace "_" " ")
+        if v = "ok" then none else some v
+      if gotW.length ≠ wired.length then some "FAIL C17 unreadable answer (wire observations)" else
+      if let some v := wfail then some (v ++ " [a string built by a program, streamed to a fresh terminal]") else
       let gotObs := words obs
       -- text observations: compare where the expectation is a text; comparison observations: judged below
       let pairs := gotObs.zip expObs
